@@ -163,10 +163,17 @@ def check(ctx):
         nid = cfg.node_of(call)
         if nid is not None:
             conds += list(cfg.guards(nid))
-        if not conds:
+        src_v = itg.cur(arg0) if arg0 is not None else None
+        gen = None
+        for _ in range(3):
+            if src_v is None or gen is not None:
+                break
+            gen, src_v = src_v.genfn, src_v.of
+        key0 = e.get('key')
+        if not conds and gen is not None and (key0 is None or key0.selected_by is None):
             # the nodes come out of a generator helper: the guards of its yield admit them
             for y in itg.events:
-                if y['tag'] == 'yield' and y['where'] is not None and under(FEG)(y) and y['where'].qualname != FEG:
+                if y['tag'] == 'yield' and y['where'] is not None and y['where'].qualname == gen:
                     yv = y['value']
                     first = yv.elts[0] if (yv is not None and yv.ty == 'tuple' and yv.elts) else yv
                     if first is not None and first.voxel:
